@@ -268,6 +268,11 @@ func expectTokenSlash(s string) (token, rest string) {
 	return s[:i], s[i:]
 }
 
+// maxQualityDigits is the number of fractional digits of a quality value that are taken into account.
+// More digits are skipped: they cannot be told apart in a float64 and would overflow n and d below
+// (10^15 < 2^53, so n and d convert to float64 exactly).
+const maxQualityDigits = 15
+
 func expectQuality(s string) (q float64, rest string) {
 	switch {
 	case len(s) == 0:
@@ -295,8 +300,10 @@ func expectQuality(s string) (q float64, rest string) {
 		if b < '0' || b > '9' {
 			break
 		}
-		n = n*10 + int(b) - '0'
-		d *= 10
+		if i < maxQualityDigits {
+			n = n*10 + int(b) - '0'
+			d *= 10
+		}
 	}
 	return q + float64(n)/float64(d), s[i:]
 }
